@@ -46,7 +46,7 @@ def worker_init():
 
 def plan(tier, seed):
     q = tier == "quick"
-    tasks = pool.batches("mutated", 5000 if q else 80000, 100) + pool.batches("fixed", len(_fixed()) * (2 if q else 6), 20) + pool.batches("special", 250 if q else 3000, 10) + pool.batches("modules", 200 if q else 2000, 20) + pool.batches("constexpr", len(gen_text.CONSTEXPR) * (2 if q else 4), 2)
+    tasks = pool.batches("mutated", 5000 if q else 80000, 100) + pool.batches("fixed", len(_fixed()) * (2 if q else 6), 20) + pool.batches("special", 250 if q else 3000, 10) + pool.batches("modules", 200 if q else 2000, 20) + pool.batches("constexpr", len(gen_text.CONSTEXPR) * (3 if q else 5), 2)
     return dict(tasks=tasks, nworkers=14, time_cap=85 if q else 880, timeout=60)
 
 
@@ -93,6 +93,14 @@ def gen_case(task, i):
     elif st == "constexpr":
         body = gen_text.CONSTEXPR[i % len(gen_text.CONSTEXPR)]
         src = HEADER + body
+        # bodies that cannot produce a value: raise, endless loop, exit, forbidden open / eval, undefined argument
+        bad = {1: "raises", 3: "never-terminates", 6: "exits", 7: "sleeps-past-the-limit", 13: "opens-a-file", 14: "evals", 18: "undefined-argument"}.get(i % len(gen_text.CONSTEXPR))
+        if i >= 2 * len(gen_text.CONSTEXPR):
+            # a well-behaved function with the same name and the same call text was compiled just before
+            good = HEADER + "@constexpr\ndef f(a):\n    return 42\ndb.Setting = f(1)\n"
+            return dict(src=src, before=good, opts=opts, as_dict=as_dict, stream=st, must_be_error=bad)
+        if bad:
+            return dict(src=src, opts=opts, as_dict=as_dict, stream=st, must_be_error=bad) if i < len(gen_text.CONSTEXPR) else dict(src=src, before=HEADER + "".join(r.choice(["db.Mode = 1\n", "# a comment line\n", "\n"]) for _ in range(r.randint(4, 14))) + body, opts=opts, as_dict=as_dict, stream=st, must_be_error=bad)
         if i >= len(gen_text.CONSTEXPR):
             # the same constexpr function and call text were compiled just before in this process, further down in
             # a longer text: whatever the first compile left behind must not speak for the second
@@ -130,7 +138,7 @@ def _proc_children(pid):
 
 def check_case(case):
     if case.get("before") is not None:
-        first = check_case(dict(case, src=case["before"], before=None))
+        first = check_case(dict(case, src=case["before"], before=None, must_be_error=None))
         second = check_case(dict(case, before=None))
         for k, v in first.get("counters", {}).items():
             second["counters"][k] = second["counters"].get(k, 0) + v
@@ -191,10 +199,15 @@ def check_case(case):
         for x in p:
             vio.append(dict(signature=dict(monitor="return-shape", event=x["event"]), detail=x))
     if case.get("must_be_error") and isinstance(res, dict) and "error" not in res:
-        cnt["recursion_accepted"] = 1
-        vio.append(dict(signature=dict(monitor="return-shape", event="recursive-program-not-reported-as-error"), detail=dict(kind=case["must_be_error"])))
-    elif case.get("must_be_error"):
+        if case["must_be_error"] == "recursion":
+            cnt["recursion_accepted"] = 1
+            vio.append(dict(signature=dict(monitor="return-shape", event="recursive-program-not-reported-as-error"), detail=dict(kind=case["must_be_error"])))
+        else:
+            vio.append(dict(signature=dict(monitor="return-shape", event="failing-constexpr-not-reported-as-error"), detail=dict(kind=case["must_be_error"], result=str(res)[:300])))
+    elif case.get("must_be_error") == "recursion":
         cnt["recursion_rejected"] = 1
+    elif case.get("must_be_error"):
+        cnt["failing_constexpr_rejected"] = cnt.get("failing_constexpr_rejected", 0) + 1
     trig = []
     for v in vio:
         v["triggers"] = trig
